@@ -18,6 +18,7 @@ import (
 	"context"
 	"fmt"
 	"regexp"
+	"slices"
 	"strings"
 	"time"
 
@@ -231,6 +232,7 @@ func (s *Service) Update(ctx context.Context, id string, plugin string, data Con
 		s.logger.Warn(ctx).Msgf("connector plugin changing from %v to %v, "+
 			"this may lead to unexpected behavior and configuration issues.", conn.Plugin, plugin)
 	}
+	oldPlugin, oldConfig, oldUpdatedAt := conn.Plugin, conn.Config, conn.UpdatedAt
 	conn.Plugin = plugin
 	conn.Config = data
 	conn.UpdatedAt = time.Now().UTC()
@@ -238,6 +240,8 @@ func (s *Service) Update(ctx context.Context, id string, plugin string, data Con
 	// persist conn
 	err = s.store.Set(ctx, id, conn)
 	if err != nil {
+		// the store still holds the old instance, keep memory in line with it
+		conn.Plugin, conn.Config, conn.UpdatedAt = oldPlugin, oldConfig, oldUpdatedAt
 		return nil, err
 	}
 
@@ -251,12 +255,14 @@ func (s *Service) AddProcessor(ctx context.Context, connectorID string, processo
 		return nil, err
 	}
 
+	oldIDs, oldUpdatedAt := conn.ProcessorIDs, conn.UpdatedAt
 	conn.ProcessorIDs = append(conn.ProcessorIDs, processorID)
 	conn.UpdatedAt = time.Now().UTC()
 
 	// persist conn
 	err = s.store.Set(ctx, connectorID, conn)
 	if err != nil {
+		conn.ProcessorIDs, conn.UpdatedAt = oldIDs, oldUpdatedAt
 		return nil, err
 	}
 
@@ -281,12 +287,15 @@ func (s *Service) RemoveProcessor(ctx context.Context, connectorID string, proce
 		return nil, cerrors.Errorf("%w (ID: %s)", ErrProcessorIDNotFound, processorID)
 	}
 
+	// the removal below shifts the IDs in place, keep a copy to restore on failure
+	oldIDs, oldUpdatedAt := slices.Clone(conn.ProcessorIDs), conn.UpdatedAt
 	conn.ProcessorIDs = conn.ProcessorIDs[:processorIndex+copy(conn.ProcessorIDs[processorIndex:], conn.ProcessorIDs[processorIndex+1:])]
 	conn.UpdatedAt = time.Now().UTC()
 
 	// persist conn
 	err = s.store.Set(ctx, connectorID, conn)
 	if err != nil {
+		conn.ProcessorIDs, conn.UpdatedAt = oldIDs, oldUpdatedAt
 		return nil, err
 	}
 
